@@ -1,5 +1,5 @@
 (* Arithmetic facts used by the slab proofs: masks as div/mod, size classes. *)
-From Coq Require Import List NArith Bool Lia ZArith.
+From Coq Require Import List NArith Bool Lia ZArith ZifyBool ZifyNat ZifyN.
 From FV Require Import Slab.SlabModel.
 Import ListNotations.
 Local Open Scope N_scope.
@@ -28,14 +28,14 @@ Lemma align_down_spec a m : 0 < m -> let r := a / m * m in r <= a /\ a < r + m /
 Proof.
   intros Hm r. subst r. pose proof (N.div_mod a m ltac:(lia)) as E.
   pose proof (N.mod_upper_bound a m ltac:(lia)) as U.
-  split; [|split]; try nia. apply N.mod_mul. lia.
+  split; [|split]; [nia|nia|apply N.mod_mul; lia].
 Qed.
 
 Lemma align_up_spec a m : 0 < m -> let r := (a + m - 1) / m * m in a <= r /\ r < a + m /\ r mod m = 0.
 Proof.
   intros Hm r. subst r. pose proof (N.div_mod (a + m - 1) m ltac:(lia)) as E.
   pose proof (N.mod_upper_bound (a + m - 1) m ltac:(lia)) as U.
-  split; [|split]; try nia. apply N.mod_mul. lia.
+  split; [|split]; [nia|nia|apply N.mod_mul; lia].
 Qed.
 
 Lemma mul_div_id_of_mod0 a m : 0 < m -> a mod m = 0 -> a / m * m = a.
